@@ -219,8 +219,8 @@ theorem routerSwap_conserves_recorded {into : Bool} {s s' : RState} {p₁ p₂ :
 
 /-! ### Non-vacuity: a three-hop swap out of the current market (0) through markets 1 and 2 -/
 example : (routerSwap false
-    { markets := [⟨1, 11, 12, 1000, 1000, 0, 0⟩, ⟨2, 12, 13, 1000, 1000, 0, 0⟩],
-      cur := ⟨0, 10, 11, 500, 500, 100, 100⟩, outs := [90, 80, 70], trace := [] }
+    { markets := [⟨1, 11, 12, 1000, 1000, 0, 0, 0, 0⟩, ⟨2, 12, 13, 1000, 1000, 0, 0, 0, 0⟩],
+      cur := ⟨0, 10, 11, 500, 500, 100, 100, 0, 0⟩, outs := [90, 80, 70], trace := [] }
     [0, 1, 2] [] (13, 13) (some 10, none) (100, 0)).map (fun r => (r.2.1, r.1.trace.map (·.market), r.1.cur.balL, r.1.cur.balS))
     = some (70, [0, 1, 2], 500, 410) := by decide
 
